@@ -6,6 +6,7 @@
 #include <cstdio>
 #include <cstdlib>
 #include <cstring>
+#include <new>
 #include <string>
 #include <vector>
 
@@ -63,6 +64,25 @@ int  vp_threads_alive(void) { return 0; }
 void vp_yield(void) {}
 void vp_watch(const void *, uint64_t, const char *) {}
 }
+
+// heap poison: every operator-new block is pre-filled with $VP_POISON (default 0xA5), so that
+// output depending on never-written heap memory differs between two poison values
+static int poison_byte() {
+    static int v = -1;
+    if (v < 0) { const char * p = getenv("VP_POISON"); v = p ? static_cast<int>(strtol(p, nullptr, 0)) & 255 : 0xA5; }
+    return v;
+}
+void * operator new(size_t n) {
+    void * p = malloc(n ? n : 1);
+    if (!p) throw std::bad_alloc();
+    memset(p, poison_byte(), n);
+    return p;
+}
+void * operator new[](size_t n) { return operator new(n); }
+void operator delete(void * p) noexcept { free(p); }
+void operator delete[](void * p) noexcept { free(p); }
+void operator delete(void * p, size_t) noexcept { free(p); }
+void operator delete[](void * p, size_t) noexcept { free(p); }
 
 extern "C" void VP_ENTRY();
 int main() {
